@@ -339,4 +339,12 @@ structure Valid (tns : Text) (ms : List Method) : Prop where
   ifaces : (ms.map ifaceKey).Nodup
   noClash : ms.Pairwise (fun a b => ¬ Clash a b)
 
+/-! ## sample descriptors for the non-vacuity examples of Props/C11.lean -/
+namespace Sample
+def mA : Method := ⟨1, "m".toList, "A".toList, "foo".toList, [], "foo".toList, none, "fooResponse".toList, none, false, []⟩
+def mB : Method := ⟨2, "m".toList, "A".toList, "Foo".toList, [], "Foo".toList, none, "FooResponse".toList, none, false, []⟩
+def mX : Method := ⟨3, "m".toList, "X".toList, "foo".toList, [], "foo".toList, none, "fooResponse".toList, none, true, []⟩
+def mC : Method := ⟨4, "m".toList, "C".toList, "bar".toList, [], "foo".toList, some "other".toList, "barResponse".toList, none, false, []⟩
+end Sample
+
 end SpyneModel.Dispatch
